@@ -97,8 +97,12 @@ def run(shard, rec):
             case = [m, t, policy, sseed]
             if not rec.wants(case):
                 continue
-            w = sim.World(m, t, False, seed=sseed, policy=policy, refuse_prob=0.2)
+            # how the runtimes arrive at threshold t: constructed with it, assigned before start(), or after an earlier session at another threshold
+            others = [x for x in range(0, (m + 1) // 2) if 2 * x < m]
+            hist = [None, ('assign', rng.choice(others)), ('session', rng.choice(others))][s % 3] if m > 1 else None
+            w = sim.World(m, t, False, seed=sseed, policy=policy, refuse_prob=0.2, history=hist)
             w.run(program)
+            rec.count('worlds_with_threshold_history', int(hist is not None))
             rec.count('worlds_started')
             if w.status != 'DONE' or any(r[0] != 'OK' for r in w.results()):
                 rec.violation(f'm={m} t={t} {policy}: start()/shutdown() did not complete: {w.status} {w.error_summaries()[:2]}', {'mechanism': 'start-failed'}, {'case': case}, case=case)
